@@ -49,3 +49,52 @@ contract(M, 'nfa_to_dfa', {'N': 'NFA'}, returns='DFA', requires=['nfa_wf(N)'],
                                                         'all((stateQ1, a) in delta for a in doneS)']},
                 3: {'ghost': 'doneQ1', 'invariant': ['Q2 == move(N, doneQ1, a)']}},
          theories=['nfa', 'subset'], props=['C03', 'C19', 'C13'])
+
+# ---------------------------------------------------------------------------------------------- C18
+DT = 'Map[(State,Symbol),Set[State],default=set]'
+_RELAB = '(y in lookup(old(delta), (q, b)) or (b == epsilon and y in step(N, q, N.epsilon)) or (b != N.epsilon and y in step(N, q, b)))'
+contract(M, '_copy_nfa_delta', {'delta': DT, 'N': 'NFA', 'epsilon': 'Symbol'}, returns='None', modifies=['delta'], requires=['nfa_wf(N)'],
+         ensures=['all((y in lookup(delta, (q, b))) == %s for q in atoms() for b in atoms() for y in atoms())' % _RELAB,
+                  'all(implies((q, b) in delta, (q, b) in old(delta) or (q in N.Q and (b in N.Sigma or b == epsilon))) for q in atoms() for b in atoms())'],
+         loops={1: {'ghost': 'doneK', 'invariant': [
+             'all((y in lookup(delta, (q, b))) == (y in lookup(old(delta), (q, b)) or (b == epsilon and (q, N.epsilon) in doneK and y in step(N, q, N.epsilon)) or (b != N.epsilon and (q, b) in doneK and y in step(N, q, b))) for q in atoms() for b in atoms() for y in atoms())',
+             'all(implies((q, b) in delta, (q, b) in old(delta) or (q in N.Q and (b in N.Sigma or b == epsilon))) for q in atoms() for b in atoms())']}},
+         theories=[], props=['C18', 'C19', 'C06'])
+
+for _v, _t in (('default', 'None'), ('given', 'IdGen')):
+    contract(M, '_fresh_nfa_state', {'Q': 'Set[State]', 'id_generator': _t}, returns='State', variant=_v, verify=False, modifies=['id_generator'], ensures=['result not in Q'],
+             theories=[], props=['C18'], note='name generator (object with a counter, loop until unused): assumed here, checked by the bounded stand-in with clashing names and call histories')
+
+_OPS = ['nfa_wf(result)', 'result.epsilon == N1.epsilon']
+def _step_from(Nn):
+    return '(b == N1.epsilon and y in step(%s, q, %s.epsilon)) or (b != %s.epsilon and y in step(%s, q, b))' % (Nn, Nn, Nn, Nn)
+for _v, _t in (('default', 'None'), ('given', 'IdGen')):
+    contract(M, 'nfa_union', {'N1': 'NFA', 'N2': 'NFA', 'id_generator': _t}, returns='NFA', variant=_v, defaults={'id_generator': 'None'},
+             requires=['nfa_wf(N1)', 'nfa_wf(N2)', 'N1.Q.isdisjoint(N2.Q)', 'N1.epsilon not in N2.Sigma'],
+             ensures=_OPS + ['result.q0 not in N1.Q', 'result.q0 not in N2.Q', 'result.Q == N1.Q | N2.Q | {result.q0}', 'result.Sigma == N1.Sigma | N2.Sigma', 'result.F == N1.F | N2.F',
+                             'step(result, result.q0, N1.epsilon) == {N1.q0, N2.q0}',
+                             'all(implies(b != N1.epsilon, step(result, result.q0, b) == set_empty()) for b in atoms())',
+                             'all((y in step(result, q, b)) == (%s) for q in N1.Q for b in atoms() for y in atoms())' % _step_from('N1'),
+                             'all((y in step(result, q, b)) == (%s) for q in N2.Q for b in atoms() for y in atoms())' % _step_from('N2')],
+             types={'delta': DT}, theories=[], props=['C18', 'C19', 'C06'], modifies=['id_generator'],
+             note='structural contract (exact transition relation of the textbook construction, epsilon moves of the second operand relabelled); L(result) is compared exactly by the bounded stand-in')
+    contract(M, 'nfa_repetition', {'N': 'NFA', 'id_generator': _t}, returns='NFA', variant=_v, defaults={'id_generator': 'None'},
+             requires=['nfa_wf(N)'],
+             ensures=['nfa_wf(result)', 'result.epsilon == N.epsilon', 'result.q0 not in N.Q', 'result.Q == N.Q | {result.q0}', 'result.Sigma == N.Sigma', 'result.F == N.F | {result.q0}',
+                      'step(result, result.q0, N.epsilon) == {N.q0}',
+                      'all(implies(b != N.epsilon, step(result, result.q0, b) == set_empty()) for b in atoms())',
+                      'all((y in step(result, q, b)) == (y in step(N, q, b) or (b == N.epsilon and q in N.F and y == N.q0)) for q in N.Q for b in atoms() for y in atoms())'],
+             modifies=['id_generator'], types={'delta': DT}, loops={1: {'ghost': 'doneF', 'invariant': [
+                 'q0 not in N.Q', 'Q == N.Q | {q0}', 'F == N.F | {q0}',
+                 'all((y in lookup(delta, (q, b))) == (y in step(N, q, b) or (b == N.epsilon and q in doneF and y == N.q0)) for q in atoms() for b in atoms() for y in atoms())',
+                 'all(implies((q, b) in delta, q in Q and (b in N.Sigma or b == N.epsilon)) for q in atoms() for b in atoms())']}},
+             theories=[], props=['C18', 'C19', 'C06'], note='structural contract; language compared exactly by the bounded stand-in')
+contract(M, 'nfa_concatenation', {'N1': 'NFA', 'N2': 'NFA'}, returns='NFA',
+         requires=['nfa_wf(N1)', 'nfa_wf(N2)', 'N1.Q.isdisjoint(N2.Q)', 'N1.epsilon not in N2.Sigma'],
+         ensures=_OPS + ['result.q0 == N1.q0', 'result.Q == N1.Q | N2.Q', 'result.Sigma == N1.Sigma | N2.Sigma', 'result.F == N2.F',
+                         'all((y in step(result, q, b)) == ((%s) or (b == N1.epsilon and q in N1.F and y == N2.q0)) for q in N1.Q for b in atoms() for y in atoms())' % _step_from('N1'),
+                         'all((y in step(result, q, b)) == (%s) for q in N2.Q for b in atoms() for y in atoms())' % _step_from('N2')],
+         types={'delta': DT}, loops={1: {'ghost': 'doneF', 'invariant': [
+             'all((y in lookup(delta, (q, b))) == ((q in N1.Q and (%s)) or (q in N2.Q and (%s)) or (b == N1.epsilon and q in doneF and y == N2.q0)) for q in atoms() for b in atoms() for y in atoms())' % (_step_from('N1'), _step_from('N2')),
+             'all(implies((q, b) in delta, q in Q and (b in Sigma or b == N1.epsilon)) for q in atoms() for b in atoms())', 'Q == N1.Q | N2.Q', 'Sigma == N1.Sigma | N2.Sigma']}},
+         theories=[], props=['C18', 'C19', 'C06'], note='structural contract; language compared exactly by the bounded stand-in')
